@@ -43,8 +43,10 @@ for d in sorted(glob.glob(os.path.join(VERIF, "seeded", "C*-*"))):
     fired = {}
     other = {}
     try:
-        for pid in claimed:
-            r = sh("cd %s && /venv/bin/python -m pta check %s --tier quick --no-write" % (VERIF, pid))
+        from concurrent.futures import ThreadPoolExecutor
+        with ThreadPoolExecutor(16) as ex:
+            results = list(ex.map(lambda pid: (pid, sh("cd %s && /venv/bin/python -m pta check %s --tier quick --no-write" % (VERIF, pid))), claimed))
+        for pid, r in results:
             if r.returncode == 1:
                 rules = sorted(set(re.findall(r"rule=(\w+) construct=(\S+)", r.stdout)))
                 fired[pid] = ["%s %s" % x for x in rules]
